@@ -324,6 +324,7 @@ def run(chk):
     chk.stats['statement-semantics'] = {'cases': len(sreqs), 'disagree': nsd, 'out_of_fuel': nfuel, 'reference_outcomes': sig_kinds}
     dist['structured_programs'] = len(sreqs)
     dist['structured_programs_with_procedures'] = sum(1 for x in smeta if 'SUB p' in x)
+    dist['structured_programs_with_arrays'] = sum(1 for x in smeta if 'DIM a0%' in x)
     dist['structured_programs_with_recursion'] = sum(1 for x in smeta if any(f'SUB p{i}' in x and f'CALL p{i}' in x.split(f'SUB p{i}')[1].split('END SUB')[0] for i in range(3)))
     chk.samples += [{'expr': tasks[i][0], 'leaves': {k: list(v) for k, v in tasks[i][1].items()}, 'reference': refs[i]} for i in range(3)]
     chk.cov['input_distribution'] = dist
